@@ -96,7 +96,7 @@ def handle_failure(run, mod, o, known):
         write_replay(pid, o.name, payload)
         attempts.append(res)
         if res.get("confirmed"):
-            run.violations.append({"obligation": o.name, "replay": path, "confirmed": True})
+            run.violations.append({"obligation": o.name, "replay": path, "confirmed": True, "func": o.func})
             return
         blk = mod.block_model(o, m) if hasattr(mod, "block_model") else None
         if blk is None:
@@ -224,9 +224,9 @@ def main(argv=None):
         groups = {}
         for o in run.obls:
             if o.status == "failed":
-                if isinstance(o, Cover):
+                if isinstance(o, Cover) or o.kind == "cover":
                     run.undecided.append(o)
-                    o.reason = "vacuity: cover query unsat (contradictory pre-condition or unreachable case)"
+                    o.reason = "vacuity: cover query unsat / expected path not reached (contradictory pre-condition or a code shape the harness does not drive)"
                 else:
                     # one witness search + native replay per failed contract clause (its other paths/cases are listed in the evidence)
                     key = (o.func, o.clause)
@@ -261,6 +261,12 @@ def main(argv=None):
             mod.post(run)
         # bounded native stand-in: (a) sections out of reach, (b) obligations the solver left undecided, (c) failed obligations whose
         # counter-models did not reproduce natively (search for a concrete failing input), (d) thorough tier: always
+        # a counter-model that reproduces on an INTERNAL helper (leading underscore) shows that the helper's contract no longer describes it -
+        # the decomposition may have moved (responsibility shifted to a caller): only the statement-level oracle can turn that into a violation
+        for v in run.violations:
+            fn_last = (v.get("func") or (v["obligation"].split("/")[1] if v["obligation"].count("/") >= 2 else "")).split(".")[-1]
+            if v["confirmed"] and not v.get("oracle") and fn_last.startswith("_") and not fn_last.startswith("__") and have_oracle(pid):
+                v["confirmed"], v["refuted"], v["helper_level"] = False, True, True
         unconfirmed = [v for v in run.violations if not v["confirmed"]]
         if run.out_of_reach or run.undecided or (unconfirmed and not any(v["confirmed"] for v in run.violations)) or tier == "thorough":
             why = ("sections out of reach: " + "; ".join("%s (%s)" % (x["section"], x["reason"][:120]) for x in run.out_of_reach)) if run.out_of_reach else \
